@@ -1191,7 +1191,9 @@ func (se *stanzaEncoder) EncodeToken(t xml.Token) error {
 				tok.Name.Space = se.ns
 			}
 			var foundID, foundFrom bool
-			attrs := tok.Attr[:0]
+			// Do not reuse the backing array: the token belongs to the caller who may
+			// send it again.
+			attrs := make([]xml.Attr, 0, len(tok.Attr)+2)
 			for _, attr := range tok.Attr {
 				if attr.Name.Space != "" {
 					// Qualified attributes (eg. xml:id) are not stanza attributes.
@@ -1238,14 +1240,21 @@ func (se *stanzaEncoder) EncodeToken(t xml.Token) error {
 
 		// For all start elements, regardless of depth, prevent duplicate xmlns
 		// attributes. See https://mellium.im/issue/75
-		attrs := tok.Attr[:0]
-		for _, attr := range tok.Attr {
+		for i, attr := range tok.Attr {
 			if attr.Name.Local == "xmlns" && tok.Name.Space != "" {
-				continue
+				// Copy on the first removal, the slice belongs to the caller.
+				attrs := make([]xml.Attr, i, len(tok.Attr))
+				copy(attrs, tok.Attr[:i])
+				for _, attr := range tok.Attr[i+1:] {
+					if attr.Name.Local == "xmlns" {
+						continue
+					}
+					attrs = append(attrs, attr)
+				}
+				tok.Attr = attrs
+				break
 			}
-			attrs = append(attrs, attr)
 		}
-		tok.Attr = attrs
 		t = tok
 	case xml.EndElement:
 		if se.depth == 1 && tok.Name.Space == "" && isStanzaEmptySpace(tok.Name) {
